@@ -653,18 +653,46 @@ func (w *World) buildReplica(i int) {
 				r.Err = fmt.Sprintf("panic in NewProvider: %v", rec)
 			}
 		}()
+		if w.cfg.Neighbours {
+			w.buildNeighbour(false)
+		}
 		p, err := buildProvider(&w.cfg.IDP, &simStorage{w: w})
 		if err != nil {
 			r.Err = err.Error()
 			return
 		}
 		r.Prov = p
+		if w.cfg.Neighbours {
+			w.buildNeighbour(true)
+		}
 	}()
 	if i < len(w.replicas) {
 		w.replicas[i] = r
 	} else {
 		w.replicas = append(w.replicas, r)
 	}
+}
+
+// buildNeighbour constructs (and drops) another provider in the same process, before and after the one under test: a second
+// tenant, a blue/green pair, an admin API beside the public one. It has its own issuer and, custom = true, endpoint paths of
+// its own; custom = false, the library defaults. Whatever the constructor keeps in package-level state must not leak from one
+// provider into the other.
+func (w *World) buildNeighbour(custom bool) {
+	c := w.cfg.IDP
+	c.IssuerKind, c.Issuer = "static", "https://neighbour.example/saml/nb"
+	none := EndpointCfg{}
+	c.SSO, c.SLO, c.Attr, c.Callback, c.Cert, c.Metadata = none, none, none, none, none, none
+	c.WantSigned, c.Org, c.Contact, c.TimeFormat, c.MetaSigAlg = "", nil, nil, "", ""
+	if custom {
+		c.SSO, c.SLO, c.Attr = EndpointCfg{Set: true, Path: "/nb/sso"}, EndpointCfg{Set: true, Path: "/nb/logout"}, EndpointCfg{Set: true, Path: "/nb/attributes"}
+		c.Callback, c.Cert, c.Metadata = EndpointCfg{Set: true, Path: "/nb/callback"}, EndpointCfg{Set: true, Path: "/nb/cert"}, EndpointCfg{Set: true, Path: "/nb/metadata"}
+		c.WantSigned, c.TimeFormat = "true", "2006-01-02T15:04:05Z"
+	}
+	func() {
+		defer func() { recover() }()
+		buildProvider(&c, &simStorage{w: w})
+	}()
+	w.probe("neighbour_provider_built")
 }
 
 func (w *World) run() {
